@@ -3,6 +3,7 @@ package main
 import (
 	"fmt"
 	"math/rand"
+	"reflect"
 	"sort"
 
 	"github.com/RoaringBitmap/roaring"
@@ -96,8 +97,14 @@ func rndFilter(r *rand.Rand) comet.Filter {
 	x := r.Intn(100)
 	switch {
 	case x < 10:
+		if r.Intn(3) == 0 {
+			return comet.IsNotNull(field)
+		}
 		return comet.Exists(field)
 	case x < 18:
+		if r.Intn(3) == 0 {
+			return comet.IsNull(field)
+		}
 		return comet.NotExists(field)
 	case x < 38:
 		return comet.Eq(field, rndOperand(r, field))
@@ -115,6 +122,9 @@ func rndFilter(r *rand.Rand) comet.Filter {
 		case 3:
 			return comet.Lte(field, rndOperand(r, field))
 		default:
+			if r.Intn(3) == 0 {
+				return comet.Between(field, rndOperand(r, field), rndOperand(r, field))
+			}
 			return comet.Range(field, rndOperand(r, field), rndOperand(r, field))
 		}
 	}
@@ -123,7 +133,12 @@ func rndFilter(r *rand.Rand) comet.Filter {
 	for i := range vals {
 		vals[i] = rndOperand(r, field)
 	}
-	if r.Intn(2) == 0 {
+	switch r.Intn(6) {
+	case 0:
+		return comet.AnyOf(field, vals...)
+	case 1:
+		return comet.NoneOf(field, vals...)
+	case 2, 3:
 		return comet.In(field, vals...)
 	}
 	return comet.NotIn(field, vals...)
@@ -317,6 +332,54 @@ func genC04(r *rand.Rand, t *Trace, thorough bool) {
 	}
 	for it := 0; it < n; it++ {
 		t.Emit(runMetaHistory(r, 8+r.Intn(40), false, false, t))
+	}
+	// the filter constructors and their aliases build the documented filter
+	for it := 0; it < 64; it++ {
+		field := metaFields[r.Intn(len(metaFields))]
+		a, b := rndOperand(r, field), rndOperand(r, field)
+		vals := []interface{}{a, b}
+		ci := it % 16
+		var f comet.Filter
+		var w1, w2 interface{}
+		switch ci {
+		case 0:
+			f, w1 = comet.Eq(field, a), a
+		case 1:
+			f, w1 = comet.Ne(field, a), a
+		case 2:
+			f, w1 = comet.Gt(field, a), a
+		case 3:
+			f, w1 = comet.Gte(field, a), a
+		case 4:
+			f, w1 = comet.Lt(field, a), a
+		case 5:
+			f, w1 = comet.Lte(field, a), a
+		case 6:
+			f, w1 = comet.In(field, vals...), vals
+		case 7:
+			f, w1 = comet.NotIn(field, vals...), vals
+		case 8:
+			f, w1, w2 = comet.Range(field, a, b), a, b
+		case 9:
+			f = comet.Exists(field)
+		case 10:
+			f = comet.NotExists(field)
+		case 11:
+			f, w1, w2 = comet.Between(field, a, b), a, b
+		case 12:
+			f = comet.IsNull(field)
+		case 13:
+			f = comet.IsNotNull(field)
+		case 14:
+			f, w1 = comet.AnyOf(field, vals...), vals
+		default:
+			f, w1 = comet.NoneOf(field, vals...), vals
+		}
+		op, ok := opEnum[f.Operator]
+		if !ok || f.Operator == "" {
+			op = 99
+		}
+		t.Emit(NewCase(402).N(ci).N(op).B(f.Field == field).B(reflect.DeepEqual(f.Value, w1)).B(reflect.DeepEqual(f.Value2, w2)), "meta.constructor")
 	}
 	// roaring's BSI against the bit-level transcription (all operators, both signs)
 	ops := []bsi.Operation{bsi.LT, bsi.LE, bsi.EQ, bsi.GE, bsi.GT, bsi.RANGE}
